@@ -129,6 +129,21 @@ def specRunDrain (rules : List Rule) (bs : List UInt32) (c : SCfg) (s : List Nat
   let c1 := specRunT rules bs c s
   specRunT rules bs c1 (drainSched c1.th)
 
+/-! ## Soak runs (real goroutines, no hooks): only bounds are claimed, never the racy values -/
+
+/-- the tightest threshold of a resource (`none`: no rule) -/
+def minThr : List Rule → Option Nat
+  | [] => none
+  | r :: rs => some (match minThr rs with | none => r.thr.toNat | some m => min r.thr.toNat m)
+
+/-- what `G` goroutines looping Entry/Exit with batch `b` can drive the gauge to, `g` entries being in flight before:
+    `max g (N + z) + (G − 1)` (`overshoot` with `k = G`; `z = 1` for batch 0), and `g + G` for a resource without rule
+    (every goroutine holds at most one entry) -/
+def soakBound (rules : List Rule) (g : Int) (G : Nat) (b : UInt32) : Int :=
+  match minThr rules with
+  | none => g + G
+  | some N => max g ((N + (if b = 0 then 1 else 0) : Nat) : Int) + ((G - 1 : Nat) : Int)
+
 /-! ## Sequential machine over several resources: rules, gauges, entry handles -/
 
 inductive Op
@@ -137,6 +152,7 @@ inductive Op
   | exit (id : Nat)
   | conc (res : String)
   | sched (id0 : Nat) (res : String) (bs : List UInt32) (s : List Nat)
+  | soak (res : String) (G rounds : Nat) (b : UInt32)
 deriving Repr
 
 inductive Out
@@ -146,6 +162,7 @@ inductive Out
   | dup
   | val (g : Int)
   | sched (th : List Pc) (mx : Int)
+  | soak (bound : Int)       -- everything has exited again (state unchanged); the gauge never exceeded `bound`
 deriving Repr, DecidableEq
 
 /-- `LoadRules`: valid rules in load order, tagged with their position -/
@@ -189,6 +206,7 @@ def step (s : St) : Op → St × Out
       { g := s.gauge res, mx := s.gauge res, th := List.replicate bs.length .idle } sch
     ({ s with gauge := fun x => if x = res then c.g else s.gauge x,
               live := schedHandles id0 res c.th ++ s.live }, .sched c.th c.mx)
+  | .soak res G _ b => (s, .soak (soakBound (rulesOf s.rules res) (s.gauge res) G b))
 
 def run (s : St) : List Op → St × List Out
   | [] => (s, [])
@@ -216,6 +234,7 @@ def specStep (s : SpecSt) : Op → SpecSt × Out
     let n := inflight s.live res
     let c := specRunDrain (rulesOf s.rules res) bs { base := n, mx := n, th := List.replicate bs.length .idle } sch
     ({ s with live := schedHandles id0 res c.th ++ s.live }, .sched c.th c.mx)
+  | .soak res G _ b => (s, .soak (soakBound (rulesOf s.rules res) (inflight s.live res : Nat) G b))
 
 def specRun (s : SpecSt) : List Op → SpecSt × List Out
   | [] => (s, [])
